@@ -20,16 +20,20 @@ for f in sorted(glob.glob('/verif/seeded/*/meta.json')):
         first = 'missed; reported after strengthening'
     if 'harness-repair' in v:
         first = 'harness error; reported after harness repair'
+    if v == 'missed':
+        first = 'NOT reported (outside the simulated components, see below)'
+        cls = 'none'
     cls = re.split(r' - MISSED| \(', cls)[0]
     rows.append((d['id'], title.replace('|', '/'), cls.replace('|', '/'), first))
 out = ["| id | change | reported as | first evaluation |", "|---|---|---|---|"]
 for r in rows:
     out.append("| %s | %s | `%s` | %s |" % r)
 n_miss = sum(1 for r in rows if r[3].startswith('missed'))
+n_never = sum(1 for r in rows if r[3].startswith('NOT'))
 n_harn = sum(1 for r in rows if r[3].startswith('harness'))
 out.append("")
-out.append("%d kept; at first evaluation %d were reported by the quick tier, %d were missed and %d ended in a harness error; all %d are reported now (`tools/reverify_seeded.sh`)." %
-           (len(rows), len(rows) - n_miss - n_harn, n_miss, n_harn, len(rows)))
+out.append("%d kept; at first evaluation %d were reported by the quick tier, %d were missed and later reported after strengthening, %d ended in a harness error and are reported now, %d are not reported and cannot be with the simulated components; %d are reported now (`tools/reverify_seeded.sh`)." %
+           (len(rows), len(rows) - n_miss - n_harn - n_never, n_miss, n_harn, n_never, len(rows) - n_never))
 p = '/verif/DESIGN.md'
 s = open(p).read()
 a = s.index('<!-- seeded-table:begin -->') + len('<!-- seeded-table:begin -->')
